@@ -185,8 +185,10 @@ RangeScan(s, p, pk, ci, v, j, lo, hi) ==
   IF j > Len(c) THEN [t |-> "ok", v |-> "", lo |-> lo, hi |-> hi]
   ELSE IF c[j].t = "c" THEN RangeScan(s, p, pk, ci, v, j + 1, lo, j)
   ELSE
-    LET ei == ChildIx(pk, NameOf(s, c[j].id), v) IN
-    IF ei = 0 THEN RangeErr("PANIC:calc_element_insert_range unwrap")      \* version-foreign child (finding #8)
+    \* an existing child unknown in version v (lenient load) is located in any version; a completely unknown one does not constrain
+    LET ei0 == ChildIx(pk, NameOf(s, c[j].id), v)
+        ei == IF ei0 # 0 THEN ei0 ELSE ChildIxAny(pk, NameOf(s, c[j].id)) IN
+    IF ei = 0 THEN RangeScan(s, p, pk, ci, v, j + 1, lo, j)
     ELSE
       LET gm == Schema[pk].pair[ci][ei]
           cmp == CmpIdx(KChildren(pk)[ci].idx, KChildren(pk)[ei].idx)
